@@ -148,3 +148,12 @@ pub fn par_map<T: Sync, U: Send>(items: &[T], f: impl Fn(&T) -> U + Sync) -> Vec
 pub fn arg_val(args: &[String], key: &str) -> Option<String> {
     args.iter().position(|a| a == key).and_then(|i| args.get(i + 1).cloned())
 }
+
+/// replay: `LNVERIF_ONLY=<case id>` restricts a run to that one generated case (all cases are still generated, so the
+/// pseudo-random stream — and hence the case — is the same as in the run that reported it)
+pub fn only_id() -> Option<usize> {
+    std::env::var("LNVERIF_ONLY").ok().and_then(|s| s.parse().ok())
+}
+pub fn skip_case(id: usize) -> bool {
+    matches!(only_id(), Some(o) if o != id)
+}
